@@ -226,6 +226,21 @@ def gen_case(S: Any, rng: Any, n_ops: int, allow_raise: bool) -> dict:
         if rng.random() < 0.7:
             put(["get", S.gen_path(rng, ref.data, kind, False), S.NODEF])
 
+    def write_into_defaults() -> None:
+        # typed state right after clear(): write INTO a container-valued default (meta.k = v, tags.append(v)), clear again:
+        # the second clear must give the type's defaults again, not what was written into the first cleared state
+        fields = [f for f, _ in S.fields_of(S.kind_level(kind))]
+        for _ in range(rng.randrange(1, 3)):
+            r = rng.random()
+            if "meta" in fields and r < 0.5:
+                put(["set", "meta." + S.gen_key(rng), S.gen_value(rng, 1)])
+            elif "tags" in fields and r < 0.8:
+                put(["edit", [["A", "tags", S.gen_value(rng, 1)]]])
+            elif "meta" in fields:
+                put(["edit", [["K", "meta", {S.gen_key(rng): S.gen_value(rng, 1)}]]])
+        put(["clear"])
+        put(["getstate"])
+
     if rng.random() < 0.15:
         snap_of_empty()
     while len(ops) < n_ops:
@@ -233,6 +248,8 @@ def gen_case(S: Any, rng: Any, n_ops: int, allow_raise: bool) -> dict:
         put(op)
         if op[0] == "clear" and rng.random() < 0.4:
             snap_of_empty()
+        elif op[0] == "clear" and kind != "dict" and rng.random() < 0.6:
+            write_into_defaults()
     return {"kind": kind, "ops": ops}
 
 
